@@ -262,3 +262,22 @@ Section Conc.
   Theorem serial_old_eq_new : forall sh g l a, exec g l (sel_prog sh a) = sel_fun a.
   Proof. intros sh g l [[[seed cfg] lv] f]. apply p_select_val. Qed.
 End Conc.
+
+(* ---------- histories: the configuration is invariant, every result is the fresh one ---------- *)
+Lemma hrun_pure : forall ops cfg,
+  fst (hrun cfg ops) = cfg /\ snd (hrun cfg ops) = map (hresult cfg) ops.
+Proof.
+  induction ops as [|o ops IH]; intros cfg.
+  - split; reflexivity.
+  - cbn [hrun hstep map]. destruct (IH cfg) as [H1 H2]. destruct (hrun cfg ops) as [cfg2 xs].
+    cbn [fst snd] in *. subst. split; reflexivity.
+Qed.
+
+(* a call's result does not depend on what was called before it on the same selector *)
+Lemma history_independent : forall pre post o cfg,
+  nth_error (snd (hrun cfg (pre ++ o :: post))) (length pre) = Some (hresult cfg o).
+Proof.
+  intros. destruct (hrun_pure (pre ++ o :: post) cfg) as [_ H]. rewrite H, map_app.
+  rewrite nth_error_app2 by (rewrite map_length; apply le_n).
+  rewrite map_length, Nat.sub_diag. reflexivity.
+Qed.
